@@ -48,6 +48,7 @@ rewrites that need richer context than a single token-stream pass.
 from __future__ import annotations
 
 import io
+import itertools
 
 from xonsh.parsers.tokenize import (
     COMMENT,
@@ -68,7 +69,7 @@ from xonsh.parsers.tokenize import (
     SEARCHPATH,
     STRING,
     TokenError,
-    tokenize,
+    _tokenize,
 )
 
 DEFAULT_INDENT = "    "
@@ -445,9 +446,19 @@ class _Formatter:
     # Token iteration
     # ---------------------------------------------------------------
     def _iter_tokens(self):
-        readline = io.BytesIO(self._src.encode("utf-8")).readline
+        # ``self._src`` is text that has been decoded already. Feed the
+        # tokenizer our own UTF-8 bytes together with that encoding: the
+        # public ``tokenize()`` would re-detect the encoding from a PEP 263
+        # cookie in the text (``# -*- coding: latin-1 -*-``) and decode the
+        # UTF-8 bytes with it, mangling every non-ASCII character.
+        data = self._src.encode("utf-8")
+        if data.startswith(b"\xef\xbb\xbf"):
+            # what ``tokenize()`` did with a byte order mark: drop it
+            data = data[3:]
+        lines = iter(io.BytesIO(data).readline, b"")
+        readline = itertools.chain(lines, itertools.repeat(b"")).__next__
         try:
-            yield from tokenize(readline, tolerant=False)
+            yield from _tokenize(readline, "utf-8", tolerant=False)
         except (TokenError, IndentationError) as exc:
             raise FormatError(str(exc)) from exc
 
